@@ -37,7 +37,8 @@ Open Scope Z_scope.
 
 (* [B64] printed forms on the grid, n_dec -1..12, fancy and colon, angle and RA: the string produced
    by the generated dms_str / ra_str (with Python's repr(float)) parses into fields p such that
-   minutes and seconds are below 60, degrees below 360 (hours: at most 24, 24 only as a whole turn),
+   minutes and seconds are below 60, the leading field is below 360 degrees / 24 h or the print is
+   exactly the whole turn (e.g. 24h 0' 0.0'', which reads back to 0 modulo 24 h),
    the sign sits exactly once on the leading non-zero field, the seconds are a multiple of
    10^-n_dec, and the string reads back to the value within half a unit of that decimal
    (+ 1e-9 degree) modulo 360 degrees / 24 h *)
